@@ -553,8 +553,12 @@ func (d *driver) run() {
 			d.sealRaces(round, sorted)
 			d.parPasses(round, sorted)
 			d.useLock(sorted)
-			if round == 0 {
-				d.gapWitness(sorted)
+			nrep := 2
+			if !quick {
+				nrep = 3
+			}
+			for rep := 0; rep < nrep; rep++ {
+				d.gapRegress(sorted, round*nrep+rep)
 			}
 		}
 	}
